@@ -67,8 +67,27 @@ fn back(did: &str) -> String {
 fn behaves(name: u32, n: u32) -> bool {
   match name {
     1 => n < 50,
-    2 => n % 2 == 0,
+    2 | 4 => n % 2 == 0,
     _ => true,
+  }
+}
+
+/// handler 4 is built on a resolver of its own (as the library's multi-network IOTA handler is): it behaves like handler
+/// 2, but its error is an `identity_resolver::Error` — the inner resolver's "unsupported method" for a DID whose method
+/// name spells the DID that was asked for
+async fn handle_nested(did: String, sched: Arc<Sched>) -> Result<CoreDocument, identity_resolver::Error> {
+  let (m, n) = back(&did).split_once('.').map(|(a, b)| (a.to_string(), b.to_string())).unwrap_or_default();
+  if behaves(4, n.parse().unwrap_or(0)) {
+    Ok(handle(4, did, sched).await.expect("handler 4 succeeds on even ids"))
+  } else {
+    sched.log.lock().unwrap().push(format!("4:{}", back(&did)));
+    let rank = sched.ranks.lock().unwrap().iter().find(|(d, _)| *d == did).map(|(_, r)| *r);
+    if let Some(rank) = rank {
+      WaitTurn { rank, sched: sched.clone(), polled: false }.await;
+    }
+    let inner: Resolver<CoreDocument> = Resolver::new();
+    let probe = CoreDID::parse(format!("did:f{}x{}:zz", m, n)).unwrap();
+    Err(inner.resolve(&probe).await.expect_err("the inner resolver has no handlers"))
   }
 }
 
@@ -124,7 +143,19 @@ fn build(h: &str, sched: &Arc<Sched>) -> Option<Resolver<CoreDocument>> {
     let m: u32 = m.parse().ok()?;
     let name: u32 = name.parse().ok()?;
     let s = sched.clone();
-    if m == 4 {
+    if name == 4 {
+      if m == 4 {
+        r.attach_handler("iota".to_string(), move |did: IotaDID| {
+          let s = s.clone();
+          async move { handle_nested(did.to_string(), s).await }
+        });
+      } else {
+        r.attach_handler(format!("m{}", m), move |did: CoreDID| {
+          let s = s.clone();
+          async move { handle_nested(did.to_string(), s).await }
+        });
+      }
+    } else if m == 4 {
       r.attach_handler("iota".to_string(), move |did: IotaDID| {
         let s = s.clone();
         async move { handle(name, did.to_string(), s).await }
@@ -144,22 +175,24 @@ fn show_doc(d: &CoreDocument) -> String {
 }
 
 fn err_kind(e: &identity_resolver::Error) -> String {
+  use identity_resolver::ErrorCause;
   let s = format!("{:?}", e);
-  if s.contains("UnsupportedMethodError") {
-    "unsupported".into()
-  } else if s.contains("DIDParsingError") {
-    "parse".into()
-  } else if s.contains("HandlerError") {
-    // the handler's message names the DID
-    match s.find("fails for ") {
-      Some(i) => {
+  match e.error_cause() {
+    ErrorCause::UnsupportedMethodError { .. } => "unsupported".into(),
+    ErrorCause::DIDParsingError { .. } => "parse".into(),
+    ErrorCause::HandlerError { .. } => {
+      // the handler's message names the DID (handler 4: the method name of the inner resolver's error spells it)
+      if let Some(i) = s.find("fails for ") {
         let rest: String = s[i + 10..].chars().take_while(|c| !c.is_whitespace() && *c != '"' && *c != '\\').collect();
         format!("handler:{}", back(&rest))
+      } else if let Some(i) = s.find("method: \"f") {
+        let rest: String = s[i + 10..].chars().take_while(|c| c.is_ascii_alphanumeric()).collect();
+        format!("handler:{}", rest.replace('x', "."))
+      } else {
+        "handler".into()
       }
-      None => "handler".into(),
     }
-  } else {
-    format!("?{}", s.chars().take(60).collect::<String>())
+    _ => format!("?{}", s.chars().take(60).collect::<String>()),
   }
 }
 
@@ -279,6 +312,9 @@ pub fn run(args: &[&str]) -> String {
         "edx5" => r#"{"kty":"OKP","crv":"Ed25519","x":"11qYAYKxCrfVS_7TyWQHOg7hcvPapiMlrwIaaPcHURo","x5u":"https://example.com/cert.pem","x5t":"dGVzdA","x5c":["MIIB"],"key_ops":["verify"]}"#.to_string(),
         "p256" => r#"{"kty":"EC","crv":"P-256","x":"acbIQiuMs3i8_uszEjJ2tpTtRM4EU3yz91PH6CdH2V0","y":"_KcyLj9vWMptnmKtm46GqDz8wf74I5LKgrl2GzH3nSE"}"#.to_string(),
         "priv" => r#"{"kty":"OKP","crv":"Ed25519","x":"11qYAYKxCrfVS_7TyWQHOg7hcvPapiMlrwIaaPcHURo","d":"nWGxne_9WmC6hEr0kuwsxERJxWl7MmkZcDusAxyuf2A"}"#.to_string(),
+        // long identifiers: an RSA-2048 key with metadata, an Ed25519 key with a certificate chain
+        "rsa" => format!(r#"{{"kty":"RSA","n":"{}","e":"AQAB","alg":"RS256","kid":"key-1","use":"sig"}}"#, "sXchDaQebHnPiGvyDOAT4saGEUetSyo9MKLOoWFsueri23bOdgWp4Dy1WlUzewbgBHod5pcM9H95GQRV3JDXboIRROSBigeC5yjU1hGzHHyXss8UDprecbAYxknTcQkhslANGRUZmdTOQ5qTRsLAt6BTYuyvVRdhS8exSZEy_c4gs_7svlJJQ4H9_NxsiIoLwAEk7-Q3UXERGYw_75IDrGA84-lA_-Ct4eTlXHBIY2EaV7t7LjJaynVJCpkv4LKjTTAumiGUIuQhrNhZLuF_RJLqHpM2kgWFLU7-VTdL1VbC2tejvcI2BlMkEpk1BzBZI0KQB0GaDWFLN-aEAw3vRw"),
+        "edchain" => format!(r#"{{"kty":"OKP","crv":"Ed25519","x":"11qYAYKxCrfVS_7TyWQHOg7hcvPapiMlrwIaaPcHURo","kid":"key-1","x5c":["{}","{}"]}}"#, "MIIB".repeat(150), "QUJD".repeat(90)),
         "garbage" => "not json".to_string(),
         _ => return "bad-request".into(),
       };
@@ -348,11 +384,11 @@ fn perms(n: usize) -> Vec<Vec<usize>> {
 
 pub fn gen(thorough: bool, seed: u64, out: &mut impl Write) {
   let mut r = Rng::new(seed ^ 0xC20);
-  let tables = ["-", "1:1", "1:1,2:2", "1:1,2:2,3:3,4:3", "1:1,1:3", "2:1,1:2", "4:1,1:3"];
+  let tables = ["-", "1:1", "1:1,2:2", "1:1,2:2,3:3,4:3", "1:1,1:3", "2:1,1:2", "4:1,1:3", "1:4,2:2", "1:4,2:4,3:3,4:4"];
   // (a) single resolution: every table x DIDs of every method, succeeding / failing / unparsable ids
   for h in tables {
     for m in [1u32, 2, 3, 4, 9] {
-      for n in [0u32, 1, 2, 49, 50, 51] {
+      for n in [0u32, 1, 2, 3, 49, 50, 51] {
         writeln!(out, "C20 res H={} D={}.{}", h, m, n).unwrap();
       }
     }
@@ -368,7 +404,7 @@ pub fn gen(thorough: bool, seed: u64, out: &mut impl Write) {
     &[(4, 2), (4, 4), (1, 0), (3, 5)],
     &[(1, 0)],
   ];
-  for h in ["1:1,2:2,3:3,4:3", "1:1,2:2", "1:3,2:3,3:3,4:1"] {
+  for h in ["1:1,2:2,3:3,4:3", "1:1,2:2", "1:3,2:3,3:3,4:1", "1:4,2:2,3:4,4:4"] {
     for set in sets {
       for p in perms(set.len()) {
         // with and without duplicates in the input list
@@ -393,7 +429,7 @@ pub fn gen(thorough: bool, seed: u64, out: &mut impl Write) {
     writeln!(out, "C20 multi H={} D={} R={}", r.pick(&tables[1..]), ds.join(","), rk.join(",")).unwrap();
   }
   // (c) did:jwk
-  for v in ["ed", "edalg", "edx5", "p256", "priv", "garbage"] {
+  for v in ["ed", "edalg", "edx5", "p256", "rsa", "edchain", "priv", "garbage"] {
     writeln!(out, "C20 jwk {}", v).unwrap();
   }
 }
